@@ -9,7 +9,7 @@ Require Import LV.Base.QcI LV.CalTab.CalTabModel LV.CalTab.TableSpec LV.CalTab.C
 Extraction Language OCaml.
 Set Extraction KeepSingleton.
 Extraction "models_caltab.ml"
-  step step_asis st_initial inv_b get_value get_value_q qre qim this Qnum Qden cal_end slot
+  step step_asis st_initial inv_b get_value frange_opt cal_frange get_value_q qre qim this Qnum Qden cal_end slot
   st_pt st_cals st_news st_gprop st_freed pt_slots pt_count pt_first_free
   p_kind p_deleted p_hold other_of
   c_name c_type c_rows c_cols c_nf c_fmin c_fmax c_prop
